@@ -11,6 +11,11 @@ use serde_json::{json, Value};
 const OPS: [&str; 8] = ["add", "sub", "mul", "div", "axpy(2)", "axpy(0)", "axpy(1)", "axpy(-0.5)"];
 const NOPS: u64 = 8;
 
+/// k times the smallest positive normal number of the build's float type (k < 1: a subnormal)
+fn tiny_of(k: f64) -> f64 {
+    k * if crate::exec::IS_F32 { f32::MIN_POSITIVE as f64 } else { f64::MIN_POSITIVE }
+}
+
 fn op_of(i: usize) -> OpKind {
     match i {
         0 => OpKind::Add,
@@ -181,6 +186,8 @@ pub fn campaigns(ctx: &Ctx) -> Stats {
             // products / quotients of huge and tiny values that stay finite
             (2, 0) => (vec![big, -big, small, 3.0], vec![small, small * 4.0]),
             (2, _) => (vec![small, big, -small, big / 8.0], vec![big, 2.0]),
+            // subnormal divisors under tiny numerators: the quotient is an ordinary number although 1/b is not
+            (3, 0) if v >= 2 => (vec![small * small.sqrt() * 0.0 + tiny_of(8.0), -tiny_of(2.0), tiny_of(1.0), tiny_of(64.0)], vec![tiny_of(0.125), tiny_of(0.5)]),
             (_, 0) => (vec![big, -big, small, 3.0], vec![2.0, big]),
             (_, _) => (vec![small, big / 4.0, -small, 1.0], vec![small, 0.25]),
         };
